@@ -53,7 +53,7 @@ PROPS = {
             "rule": "exhaustive assignments of Call-ID, tags and URIs from small alphabets x both orientations x request/response x decorations, plus random long identifiers; oracle: bijection between abstract dialog keys and implementation identifiers; non-trivial = identifier produced"},
     "C11": {"lean": ["C11"], "expected": ["Reader"], "streams": [{"name": "frame", "gen": "frame", "args": {"focus": "frame"}}],
             "rule": "generated message sequences under scripted segmentations (exhaustive single/double cuts of short streams, random multi-cuts down to 1-byte segments) through ParseMessage on one bufio.Reader; non-trivial = at least one message extracted; distinct by op line"},
-    "C10": {"lean": ["C10"], "expected": ["Reader"], "streams": [{"name": "udpbuf", "gen": "frame", "args": {"focus": "udpbuf"}}, {"name": "pool", "gen": "pool"}],
+    "C10": {"lean": ["C10"], "expected": ["Reader"], "streams": [{"name": "udpbuf", "gen": "frame", "args": {"focus": "udpbuf"}}, {"name": "pool", "gen": "pool"}, {"name": "udpwire", "gen": "frame", "args": {"focus": "udpwire"}}],
             "rule": "every datagram parsed through the real UDP parse loop in a clean and in a dirty 64 KiB buffer (cut / over- / under-declared datagrams), plus exhaustive and random Alloc/Free histories on the real pool; non-trivial = datagram accepted; distinct by op line"},
     "C08": {"lean": ["C08"], "expected": ["Inventory"], "streams": [{"name": "hostile", "gen": "hostile"}],
             "rule": "mutations of valid requests/responses and hostile field values (absurd Content-Length, bracket-only hosts, thousands of headers/parameters, truncations, garbage): accept/reject compared with the model, robustness oracle (no panic, bounded allocation) on parse and on the whole pipeline, liveness probes after hostile input; non-trivial = input accepted by the parser; distinct by op line"},
